@@ -87,11 +87,13 @@ func (r *run) yieldOn(what string, objs []any, block func() bool) {
 		me.blocked = nil
 		return
 	}
+	intrFn := r.intrFn // an intrinsic that yields reads its own signature afterwards; other goroutines' intrinsics overwrite it
 	s.cur = next
 	next.resume <- struct{}{}
 	r.park(me)
 	// resumed: we are current again and enabled by construction
 	me.blocked = nil
+	r.intrFn = intrFn
 }
 
 // pickNext chooses the thread to run at a scheduling point (me == nil when the current thread has exited).
